@@ -37,18 +37,18 @@ func (r *round1R) Finalize(out chan<- *round.Message) (round.Session, error) {
 	kB := sample.Scalar(rand.Reader, r.Group())
 	D := kB.ActOnBase()
 	kB.Invert()
-	tag0 := &hash.BytesWithDomain{TheDomain: "Multiply0", Bytes: nil}
+	tag0 := &hash.BytesWithDomain{TheDomain: "Multiply0", Bytes: []byte{}}
 	multiply0, err := ot.NewMultiplyReceiver(r.Hash().Fork(tag0), r.config.Setup, kB)
 	if err != nil {
 		return r, err
 	}
-	tag1 := &hash.BytesWithDomain{TheDomain: "Multiply1", Bytes: nil}
+	tag1 := &hash.BytesWithDomain{TheDomain: "Multiply1", Bytes: []byte{}}
 	multiply1, err := ot.NewMultiplyReceiver(r.Hash().Fork(tag1), r.config.Setup, kB)
 	if err != nil {
 		return r, err
 	}
 	beta := r.Group().NewScalar().Set(r.config.SecretShare).Mul(kB)
-	tag2 := &hash.BytesWithDomain{TheDomain: "Multiply1", Bytes: nil}
+	tag2 := &hash.BytesWithDomain{TheDomain: "Multiply2", Bytes: []byte{}}
 	multiply2, err := ot.NewMultiplyReceiver(r.Hash().Fork(tag2), r.config.Setup, beta)
 	if err != nil {
 		return r, err
